@@ -190,3 +190,120 @@ Theorem ld_off_is_source arg plus : shape_offset 16 8 4 plus arg = ld_off arg pl
 Proof.
   unfold shape_offset, ld_off, two32. destruct plus; zify; Z.div_mod_to_equations; lia.
 Qed.
+
+(** ** Policy.Assemble: the layout of the final program as regenerated from the source *)
+Inductive pinstr :=
+| PILoad (off size:string)
+| PIJumpIf (c:option cond) (val skip_true skip_false:string)
+| PIJump (skip:string)
+| PIRet (val:string)
+| PIUnknown (src:string).
+Inductive ppiece :=
+| PInstr (i:pinstr)
+| PSplice (name:string)
+| PIf (cond:string) (a b:list ppiece)
+| PReturn (src:string)
+| PUnknown (src:string).
+
+Section Layout.
+Variable k : consts.
+Variable ai : arch_info.
+Variable default_action : N.
+Variable x32 body : list instr.    (* the values of x32Filter and instructions *)
+
+Definition jumpN_value : N := N.of_nat (List.length x32 + List.length body + 1).
+
+(** the value of the Go expressions that occur as instruction operands (uint32 / uint8 conversions explicit) *)
+Definition operand (e:string) : option N :=
+  if String.eqb e "" then Some 0
+  else if String.eqb e "1" then Some 1
+  else if String.eqb e "archOffset" then Some 4
+  else if String.eqb e "syscallNumOffset" then Some 0
+  else if String.eqb e "uint32(p.arch.ID)" then Some (ai_id ai)
+  else if String.eqb e "uint8(jumpN)" then Some (jumpN_value mod 256)
+  else if String.eqb e "uint32(jumpN)" then Some (jumpN_value mod two32)
+  else if String.eqb e "uint32(arch.X32.SeccompMask)" then Some (k_x32mask k)
+  else if String.eqb e "uint32(ActionErrno) | uint32(errnoENOSYS)" then Some (N.lor (k_errno k) (k_enosys k))
+  else if String.eqb e "returnValue(p.DefaultAction)" then Some (ret_word k default_action)
+  else None.
+
+Definition interp_pinstr (i:pinstr) : option instr :=
+  match i with
+  | PILoad off size => if String.eqb size "sizeOfUint32" then option_map ILd (operand off) else None
+  | PIJumpIf (Some c) v st sf =>
+      match operand v, operand st, operand sf with
+      | Some v', Some t, Some f => Some (IJmpIf c v' t f)
+      | _, _, _ => None
+      end
+  | PIJump s => option_map IJa (operand s)
+  | PIRet v => option_map IRet (operand v)
+  | _ => None
+  end.
+
+Fixpoint interp_pinstrs (l:list pinstr) : option (list instr) :=
+  match l with
+  | [] => Some []
+  | i :: r => match interp_pinstr i, interp_pinstrs r with Some x, Some y => Some (x :: y) | _, _ => None end
+  end.
+
+Definition guard_of (e:string) : option bool :=
+  if String.eqb e "jumpN <= 255" then Some (jumpN_value <=? 255) else None.
+
+(** the program built by the append statements; [PReturn "return program, nil"] ends it *)
+Fixpoint interp_layout (fuel:nat) (l:list ppiece) : option (list instr) :=
+  match fuel with
+  | O => None
+  | S fuel' =>
+    match l with
+    | [] => None                         (* fell off the end without returning the program *)
+    | PReturn s :: _ => if String.eqb s "return program, nil" then Some [] else None
+    | PInstr i :: r => match interp_pinstr i, interp_layout fuel' r with Some x, Some y => Some (x :: y) | _, _ => None end
+    | PSplice n :: r =>
+        match (if String.eqb n "x32Filter" then Some x32 else if String.eqb n "instructions" then Some body else None), interp_layout fuel' r with
+        | Some x, Some y => Some (x ++ y) | _, _ => None end
+    | PIf c a b :: r =>
+        match guard_of c with
+        | Some g => match interp_branch fuel' (if g then a else b), interp_layout fuel' r with Some x, Some y => Some (x ++ y) | _, _ => None end
+        | None => None
+        end
+    | PUnknown _ :: _ => None
+    end
+  end
+with interp_branch (fuel:nat) (l:list ppiece) : option (list instr) :=
+  match fuel with
+  | O => None
+  | S fuel' =>
+    match l with
+    | [] => Some []
+    | PInstr i :: r => match interp_pinstr i, interp_branch fuel' r with Some x, Some y => Some (x :: y) | _, _ => None end
+    | _ => None
+    end
+  end.
+End Layout.
+
+(** the layout, guard and helper the compiler proofs were written for *)
+Definition expected_layout : list ppiece := [
+  PInstr (PILoad "archOffset" "sizeOfUint32");
+  PIf "jumpN <= 255" [PInstr (PIJumpIf (Some JNe) "uint32(p.arch.ID)" "uint8(jumpN)" "")]
+                     [PInstr (PIJumpIf (Some JEq) "uint32(p.arch.ID)" "1" ""); PInstr (PIJump "uint32(jumpN)")];
+  PInstr (PILoad "syscallNumOffset" "sizeOfUint32");
+  PSplice "x32Filter"; PSplice "instructions";
+  PInstr (PIRet "returnValue(p.DefaultAction)");
+  PReturn "return program, nil" ]%string.
+Definition expected_x32_guard : list pinstr :=
+  [ PIJumpIf (Some JGe) "uint32(arch.X32.SeccompMask)" "" "1"; PIRet "uint32(ActionErrno) | uint32(errnoENOSYS)" ]%string.
+
+(** the expected layout means exactly the program [compile] returns, for every architecture record, constants,
+    default action and group code - both encodings of the architecture jump *)
+Theorem expected_layout_is_compile k ai d body :
+  interp_layout k ai d (x32_filter k ai) body 20 expected_layout =
+  Some (prologue ai (jumpN_value (x32_filter k ai) body) ++ [ILd 0] ++ x32_filter k ai ++ body ++ [IRet (ret_word k d)]).
+Proof.
+  unfold expected_layout, prologue. cbn -[x32_filter jumpN_value N.leb N.modulo ret_word app].
+  destruct (jumpN_value (x32_filter k ai) body <=? 255); cbn -[x32_filter jumpN_value N.modulo ret_word app];
+    rewrite ?app_nil_r; reflexivity.
+Qed.
+
+Theorem expected_x32_guard_is_model k ai d :
+  interp_pinstrs k ai d [] [] expected_x32_guard = Some [IJmpIf JGe (k_x32mask k) 0 1; IRet (N.lor (k_errno k) (k_enosys k))].
+Proof. reflexivity. Qed.
